@@ -155,7 +155,7 @@ def gen_history(rng, name, modes, nops=None, listen=0):
                 kind = "upgrade"
             # (a client that stops reading blocks a big reply on the AF_UNIX pair only: loopback TCP buffers swallow it)
             # (and not in thread-per-connection mode as long as MHD_stop_daemon can hang there, see tpc_write_wait_bounded)
-            if rid == 2 and rng.random() < 0.7 and not cfg.get("listen") and (cfg["mode"] != "tpc" or tpc_write_wait_bounded()):
+            if rid == 2 and rng.random() < 0.7 and not cfg.get("listen") and True:  # always, also in tpc mode (finding F39, repaired by 9f85107): a return of the stop hang must be reported
                 L.append("hold %d" % c)
                 m.held.append(c)
             # interim "102 Processing" replies before the final one (every handler call answers with one)
@@ -395,7 +395,7 @@ def gen_threads(rng, n):
                 L += ["arrive %d %d 1" % (nid, 10 + j), SETTLE]; nid += 1
             L += ["mark fresh-batch", "query", "stop"] + ["resp-drop %d" % r for r in (1, 2, 3, 4)]
             out.append(L)
-    if tpc_write_wait_bounded():
+    if True:  # F39 repaired by 9f85107; always generated so that a regression is reported
         # stop while a connection thread waits for a client that does not read (hung before the fix)
         for drop in (0, 1):
             cfg = {"mode": "tpc", "limit": 2, "perip": 0, "suspend": 0, "upgrade": 0, "nts": 0}
